@@ -239,6 +239,7 @@ Section Tree.
                            | None => None
                            end
                end) l []
+        | IIris false None => Some None
         | IIris _ None | IIris _ (Some []) => Some (Some (FArr []))
         | IIris _ (Some l) => Some (Some (FArr (map (fun s => Text.FStr (escape_quote s)) l)))
         end
